@@ -5,7 +5,7 @@ import json, os, glob, collections
 class Body:
     __slots__ = ("unit", "j", "key", "name", "self_name", "module", "trait", "blocks", "locals",
                  "argc", "promoted", "is_closure", "parent", "file", "line", "end_line", "types",
-                 "_cfg", "path", "crate", "trait_ref")
+                 "_cfg", "path", "crate", "trait_ref", "_transp")
 
     def __init__(self, unit, j, key):
         self.unit = unit
@@ -29,6 +29,7 @@ class Body:
         self.types = unit.types
         self.crate = unit.crate
         self._cfg = None
+        self._transp = None
 
     def ty(self, tid):
         return self.types[tid]
@@ -90,6 +91,9 @@ class Program:
         self.bodies = collections.OrderedDict()
         self.unit_by_name = {u.name: u for u in self.units}
         for u in self.units:
+            u.prog = self
+        self._opaque = None
+        for u in self.units:
             for k, b in u.bodies.items():
                 kk = k
                 if kk in self.bodies:
@@ -114,6 +118,28 @@ class Program:
 
     def unit(self, name):
         return self.unit_by_name[name]
+
+    def opaque_names(self):
+        """Identifiers that some rule, spec table, reviewed ledger or known-findings key refers to. A function whose
+        name is in this set keeps its identity in expression trees (the rules know it by name and check it on its
+        own); every OTHER small pure in-workspace function is transparent: calls of it are replaced by its result
+        expression (dataflow.Prov) and its stores are attributed to the caller (stores.stores), so extracting a helper,
+        inlining one or naming a sub-expression does not change what the rules see."""
+        if self._opaque is None:
+            import re
+            root = os.path.dirname(os.path.dirname(os.path.abspath(__file__)))
+            verif = os.path.dirname(root)
+            names = set()
+            files = glob.glob(os.path.join(root, "spec", "*.json")) + glob.glob(os.path.join(root, "tables", "*.txt")) + \
+                glob.glob(os.path.join(root, "rules", "*.py")) + glob.glob(os.path.join(root, "sa", "*.py")) + \
+                [os.path.join(verif, "known_findings.json")]
+            for f in files:
+                try:
+                    names.update(re.findall(r"[A-Za-z_][A-Za-z0-9_]*", open(f).read()))
+                except OSError:
+                    pass
+            self._opaque = names
+        return self._opaque
 
     def find(self, name=None, self_name=None, crate=None, module_contains=None, trait=None,
              closures=False, include_tests=False):
